@@ -2144,14 +2144,18 @@ func marshalTuple(info TypeInfo, value interface{}) ([]byte, error) {
 	return nil, marshalErrorf("cannot marshal %T into %s", value, tuple)
 }
 
-func readBytes(p []byte) ([]byte, []byte) {
+// readBytes splits a [bytes] value off p, which holds at least the 4 length bytes.
+func readBytes(p []byte) (value, rest []byte, err error) {
 	// TODO: really should use a framer
 	size := readInt(p)
 	p = p[4:]
 	if size < 0 {
-		return nil, p
+		return nil, p, nil
 	}
-	return p[:size], p[size:]
+	if int(size) > len(p) {
+		return nil, nil, unmarshalErrorf("unexpected eof: element of %d bytes, %d bytes left", size, len(p))
+	}
+	return p[:size], p[size:], nil
 }
 
 // currently only support unmarshal into a list of values, this makes it possible
@@ -2169,7 +2173,10 @@ func unmarshalTuple(info TypeInfo, data []byte, value interface{}) error {
 			// each element inside data is a [bytes]
 			var p []byte
 			if len(data) >= 4 {
-				p, data = readBytes(data)
+				var err error
+				if p, data, err = readBytes(data); err != nil {
+					return unmarshalErrorf("can not unmarshal %s: element %d: %v", info, i, err)
+				}
 			}
 			err := Unmarshal(elem, p, v[i])
 			if err != nil {
@@ -2198,7 +2205,10 @@ func unmarshalTuple(info TypeInfo, data []byte, value interface{}) error {
 		for i, elem := range tuple.Elems {
 			var p []byte
 			if len(data) >= 4 {
-				p, data = readBytes(data)
+				var err error
+				if p, data, err = readBytes(data); err != nil {
+					return unmarshalErrorf("can not unmarshal %s: element %d: %v", info, i, err)
+				}
 			}
 
 			v, err := elem.NewWithError()
@@ -2235,7 +2245,10 @@ func unmarshalTuple(info TypeInfo, data []byte, value interface{}) error {
 		for i, elem := range tuple.Elems {
 			var p []byte
 			if len(data) >= 4 {
-				p, data = readBytes(data)
+				var err error
+				if p, data, err = readBytes(data); err != nil {
+					return unmarshalErrorf("can not unmarshal %s: element %d: %v", info, i, err)
+				}
 			}
 
 			v, err := elem.NewWithError()
@@ -2386,8 +2399,11 @@ func unmarshalUDT(info TypeInfo, data []byte, value interface{}) error {
 				return unmarshalErrorf("can not unmarshal %s: field [%d]%s: unexpected eof", info, id, e.Name)
 			}
 
-			var p []byte
-			p, data = readBytes(data)
+			p, rest, err := readBytes(data)
+			if err != nil {
+				return unmarshalErrorf("can not unmarshal %s: field [%d]%s: %v", info, id, e.Name, err)
+			}
+			data = rest
 			if err := v.UnmarshalUDT(e.Name, e.Type, p); err != nil {
 				return err
 			}
@@ -2429,8 +2445,11 @@ func unmarshalUDT(info TypeInfo, data []byte, value interface{}) error {
 
 			val := reflect.New(valType)
 
-			var p []byte
-			p, data = readBytes(data)
+			p, rest, err := readBytes(data)
+			if err != nil {
+				return unmarshalErrorf("can not unmarshal %s: field [%d]%s: %v", info, id, e.Name, err)
+			}
+			data = rest
 
 			if err := Unmarshal(e.Type, p, val.Interface()); err != nil {
 				return err
@@ -2479,8 +2498,11 @@ func unmarshalUDT(info TypeInfo, data []byte, value interface{}) error {
 			return unmarshalErrorf("can not unmarshal %s: field [%d]%s: unexpected eof", info, id, e.Name)
 		}
 
-		var p []byte
-		p, data = readBytes(data)
+		p, rest, err := readBytes(data)
+		if err != nil {
+			return unmarshalErrorf("can not unmarshal %s: field [%d]%s: %v", info, id, e.Name, err)
+		}
+		data = rest
 
 		f, ok := fields[e.Name]
 		if !ok {
